@@ -369,6 +369,14 @@ static void part_fun(Rng& r, long n) {
       Fun F; if (!make_fun(r, nv, F, true)) { EMIT("skipfun notimplemented => 0\n"); continue; }
       Function& f = *F.f; nv = F.nvar;
       string dag = dump_fun(f);
+      // a second function that APPLIES f through an explicit application node (Function::operator() would inline the expression
+      // of f): its inner projections call the projections of f itself (apply_bwd), in the mode of the outer call
+      Function* wrap = 0;
+      if (r.coin(30)) { try {
+        int na = f.nb_arg(); Array<const ExprSymbol> ys(na); Array<const ExprNode> yn(na);
+        for (int i = 0; i < na; i++) { const ExprSymbol& s = ExprSymbol::new_(("w" + to_string(i)).c_str(), f.arg(i).dim); ys.set_ref(i, s); yn.set_ref(i, s); }
+        wrap = new Function(ys, ExprApply::new_(f, yn), "wrap");
+        if (!wrap->inhc4revise().implemented()) { delete wrap; wrap = 0; } } catch (...) { wrap = 0; } }
       for (int k = 0; k < 4; k++) {
         Vector planted(nv); for (int i = 0; i < nv; i++) planted[i] = dyadic(r);
         Interval v = f.eval(IntervalVector(planted));
@@ -392,6 +400,12 @@ static void part_fun(Rng& r, long n) {
           else { IntervalVector s2(planted); if (seed_ok(r, f, s2, y)) seed = s2; }
         }
         if (r.coin(30) && !getenv("H_INNER_NOHIST")) { IntervalVector other = box_around(r, planted); try { f.ibwd(Interval(-1, 1), other); } catch (...) {} }   // history
+        if (wrap && r.coin(60)) { // history through the applying function: a contracting call of f, then an INFLATING call of the function that applies f
+          try { IntervalVector o1 = box_around(r, planted); f.ibwd(y, o1);
+                Vector far(nv); for (int i = 0; i < nv; i++) far[i] = planted[i] + r.range(-24, 24) / 8.0;
+                Interval vf = f.eval(IntervalVector(far));
+                if (!vf.is_empty() && !vf.is_unbounded()) { IntervalVector o2(nv); for (int i = 0; i < nv; i++) o2[i] = Interval(far[i] - 4, far[i] + 4);
+                  wrap->ibwd(Interval(vf.lb() - 50, vf.ub() + 50), o2, IntervalVector(far)); } } catch (...) {} }
         IntervalVector res = box;
         if (seed.is_empty() && r.coin()) f.ibwd(y, res); else f.ibwd(y, res, seed);   // (contracting mode through both entry points: the 2-argument one and the 3-argument one with an EMPTY seed)
         rm("Function::ibwd");
